@@ -250,7 +250,7 @@ def r02g(ck, fb):
         if not b:
             continue
         m = b.calls(r'FileStore::write_log_result_to_result$')
-        ck.require(len(m) == 1, 'R02g', fn + ':maps-result', b.where(), 'result of the oneshot is not mapped through write_log_result_to_result')
+        ck.require(len(m) >= 1, 'R02g', fn + ':maps-result', b.where(), 'result of the oneshot is not mapped through write_log_result_to_result')
         if m:
             t = Taint(b, call_src=lambda t: 'oneshot::channel' in (t.get('f') or {}).get('d', ''))
             ck.require(t.op_tainted(m[0].args[0]), 'R02g', fn + ':awaits-oneshot', m[0].where(),
